@@ -14,6 +14,7 @@ import YowsupVerif.Drv.Iq
 import YowsupVerif.Drv.Routing
 import YowsupVerif.Drv.Life
 import YowsupVerif.Drv.PreKeys
+import YowsupVerif.Drv.Trust
 open Yow Yow.Drv
 
 structure DrvState where
@@ -24,12 +25,14 @@ structure DrvState where
   iq : Yow.Iq.St := Yow.Iq.init
   life : Yow.Life.St := {}
   pk : PkSt := {}
+  trust : Yow.Trust.St := Yow.Trust.init
 
 def step (s : DrvState) (line : String) : DrvState × String :=
   match (line.splitOn " ").filter (· ≠ "") with
   | "seg" :: rest => let r := segStep s.seg rest; ({ s with seg := r.1 }, r.2)
   | "coder" :: rest => (s, coderStep rest)
   | "iq" :: rest => let r := iqStep s.iq rest; ({ s with iq := r.1 }, r.2)
+  | "trust" :: rest => let r := trustStep s.trust rest; ({ s with trust := r.1 }, r.2)
   | "pk" :: rest => let r := pkStep s.pk rest; ({ s with pk := r.1 }, r.2)
   | "life" :: rest => let r := lifeStep s.life rest; ({ s with life := r.1 }, r.2)
   | "route" :: rest => (s, routingStep rest)
